@@ -22,6 +22,26 @@ type sndWorld struct {
 	w   *world.Writer
 	s   api.SenderInterface
 	src *model.FeatureAddressType
+	// promo: what a cache of 100 entries that moves a looked-up entry to the front would hold (least recently
+	// used first). It is NOT the reference of the property (that is "the last 100 notifications"); it only
+	// serves to recognise the recorded finding exactly: a loss is the known one iff the missing notifications
+	// are precisely those this cache has evicted.
+	promo []uint64
+}
+
+func (sw *sndWorld) promoTouch(k uint64, insert bool) {
+	for i, x := range sw.promo {
+		if x == k {
+			sw.promo = append(append(sw.promo[:i:i], sw.promo[i+1:]...), k)
+			return
+		}
+	}
+	if insert {
+		sw.promo = append(sw.promo, k)
+		if len(sw.promo) > 100 {
+			sw.promo = sw.promo[1:]
+		}
+	}
 }
 
 func newSndWorld() *sndWorld {
@@ -213,7 +233,14 @@ func (sw *sndWorld) stepNotify(ctrs *[]uint64, op string, judge bool) (viol []st
 			return []string{"Notify failed"}, "notify:error"
 		}
 		*ctrs = append(*ctrs, uint64(*c))
+		sw.promoTouch(uint64(*c), true)
 		digest = "notify"
+	case "other":
+		// a datagram that is no notification takes a message counter of the same connection
+		if err := sw.s.ResultSuccess(&model.HeaderType{AddressSource: sndDest(1), AddressDestination: sw.src, MsgCounter: ptrCtr(7)}, sw.src); err != nil {
+			return []string{"ResultSuccess failed"}, "other:error"
+		}
+		digest = "other"
 	case "get":
 		l := *ctrs
 		if len(l) < 2 {
@@ -239,6 +266,9 @@ func (sw *sndWorld) stepNotify(ctrs *[]uint64, op string, judge bool) (viol []st
 			k, must = l[len(l)-101], false
 		}
 		d, err := sw.s.DatagramForMsgCounter(model.MsgCounterType(k))
+		if err == nil {
+			sw.promoTouch(k, false)
+		}
 		digest = fmt.Sprintf("get:%s:%v", f[1], err == nil)
 		if judge && must && err != nil {
 			viol = append(viol, fmt.Sprintf("a notification among the last 100 cannot be retrieved | which=%s", f[1]))
@@ -259,7 +289,23 @@ func c13NotifyDriver() *engine.HDriver {
 		}
 		starts = append(starts, h)
 	}
-	return &engine.HDriver{Name: "notify-cache", Alphabet: []string{"notify", "get:oldest", "get:second", "get:newest", "get:evicted"}, Starts: starts,
+	// mixed traffic: the last 100 notifications do not carry 100 consecutive counters
+	for _, k := range []int{1, 50, 99} {
+		var h []string
+		for i := 0; i < 100; i++ {
+			if i == k {
+				h = append(h, "other")
+			}
+			h = append(h, "notify")
+		}
+		starts = append(starts, h)
+	}
+	var alt []string
+	for i := 0; i < 60; i++ {
+		alt = append(alt, "notify", "other")
+	}
+	starts = append(starts, alt)
+	return &engine.HDriver{Name: "notify-cache", Alphabet: []string{"notify", "get:oldest", "get:second", "get:newest", "get:evicted", "other"}, Starts: starts,
 		Step: func(hist []string, op string) engine.HStep {
 			sw := newSndWorld()
 			var ctrs []uint64
@@ -276,6 +322,11 @@ func c13NotifyDriver() *engine.HDriver {
 					last = ctrs[len(ctrs)-100:]
 				}
 				missing := 0
+				inPromo := map[uint64]bool{}
+				for _, k := range sw.promo {
+					inPromo[k] = true
+				}
+				asPromotion := true // the missing ones are exactly those a promoting cache has evicted
 				for _, k := range last {
 					d, err := sw.s.DatagramForMsgCounter(model.MsgCounterType(k))
 					if err != nil {
@@ -283,8 +334,14 @@ func c13NotifyDriver() *engine.HDriver {
 					} else if uint64(*d.Header.MsgCounter) != k {
 						st.Violations = append(st.Violations, "DatagramForMsgCounter returned another datagram")
 					}
+					if (err != nil) == inPromo[k] {
+						asPromotion = false
+					}
 				}
-				if missing > 0 {
+				if missing > 0 && asPromotion {
+					// the oracle names the failing input class itself ("!"): lookups that promoted entries, then notifies
+					st.Violations = append(st.Violations, "!a notification among the last 100 cannot be retrieved: exactly the notifications that a cache which moves a looked-up entry to the front has evicted (lookup of a retrievable notification, then further notifications)")
+				} else if missing > 0 {
 					st.Violations = append(st.Violations, fmt.Sprintf("a notification among the last 100 cannot be retrieved | missing=%d after %d notifies", missing, len(ctrs)))
 				}
 			}
